@@ -110,6 +110,21 @@ def decode_candidates(b: bytes) -> Dict[str, Any]:
 
 
 CAPACITY_DEPTH = 400
+QUERY_CAPACITY = 150
+
+
+def query_complexity(q: str) -> int:
+    """Bracket/parenthesis nesting and segment count: what the recursive parser and
+    the chain of segment iterators spend interpreter stack on."""
+    d = m = 0
+    for c in q:
+        if c in "([":
+            d += 1
+            m = max(m, d)
+        elif c in ")]":
+            d -= 1
+    return max(m, q.count(".") + q.count("["))
+
 
 
 def bracket_depth(b: bytes) -> int:
@@ -141,8 +156,13 @@ def reference(sc: Dict[str, Any]) -> Dict[str, Any]:
         except UnicodeDecodeError:
             return {"expect": "fail", "phase": "query-file", "why": "query file is not valid UTF-8"}
         qtext = sc["files"]["/q.jsonpath"].encode("latin-1").decode("utf-8").strip()
+    qcap = query_complexity(qtext) > QUERY_CAPACITY
     try:
         path = jp.JSONPathEnvironment().compile(qtext)
+    except RecursionError:
+        # interpreter capacity, not a verdict on the query: the CLI runs a few
+        # frames deeper than this reference; accept success or a clean refusal
+        return {"expect": "either", "outputs": [], "phase": "capacity", "why": "query nested beyond the interpreter's recursion limit", "unjudged_output": True}
     except Exception as exc:  # noqa: BLE001
         return {"expect": "fail", "phase": "compile", "why": type(exc).__name__}
     cls, cands = classify_doc(sc["doc_bytes"])
@@ -170,6 +190,8 @@ def reference(sc: Dict[str, Any]) -> Dict[str, Any]:
             outs[name] = json.dumps(values, indent=2 if sc["pretty"] else None)
         except (Exception, RecursionError) as exc:  # noqa: BLE001
             errs[name] = type(exc).__name__
+    if qcap:
+        return {"expect": "either", "outputs": sorted(set(outs.values())), "phase": "capacity", "why": "query complexity within reach of the interpreter's recursion limit", "unjudged_output": not outs}
     if cls == "valid":
         if errs:
             return {"expect": "fail", "phase": "evaluate", "why": sorted(set(errs.values()))[0]}
@@ -194,12 +216,21 @@ def _doc_text(rng) -> Tuple[str, str]:
         kind = "big-numbers"
     elif r < 0.86:
         return rng.choice(('[NaN, 1]', '{"a": Infinity, "b": [-Infinity]}', '[1, {"a": NaN}]')), "nan"
+    elif r < 0.885:
+        return rng.choice(EXOTIC_DOCS), "exotic-values"
     elif r < 0.905:
         return '{"a": 1, "a": 2, "b": [{"a": 3, "a": 4}]}', "dup-keys"
     elif r < 0.917:
         # larger than any single buffer or pipe: a tool that reads only the first block shows
         n = rng.choice((3000, 20000))
         v = {"a": list(range(n)), "b": ["x" * 50] * 200, "c": {"a": "tail-marker"}}
+        if rng.random() < 0.5:
+            # raw multi-byte characters at a random alignment: some character
+            # straddles every power-of-two block boundary up to the document size
+            chars = "é€\U0001f600ñ日"
+            runs = ["".join(rng.choice(chars) for _ in range(rng.choice((700, 3000)))) for _ in range(rng.choice((8, 30)))]
+            v = {"a": runs, "b": list(range(200)), "c": {"a": "tail-é"}}
+            return " " * rng.randrange(4) + json.dumps(v, ensure_ascii=False), f"large-nonascii-{len(runs)}"
         return json.dumps(v), f"large-{n}"
     else:
         depth = rng.choice((5, 50, 99, 100, 101, 150, 300))
@@ -213,6 +244,20 @@ def _doc_text(rng) -> Tuple[str, str]:
     if style < 0.85:
         return json.dumps(v, indent=1, ensure_ascii=False), kind
     return json.dumps(v, separators=(",", ":")), kind
+
+
+EXOTIC_DOCS = [
+    # JSON escapes (raw strings): line separators, NUL, ESC, a surrogate pair, combining marks, CR LF, TAB
+    r'["\u2028", "a\u2029b", "\u0000", "\u001b[31m", "\ud83d\ude00", "e\u0301", "\u00e9", "\r\n", "\t"]',
+    # the same characters raw (UTF-8 encoded), where JSON allows them
+    '["\u2028", "a\u2029b", "\U0001f600", "e\u0301", "\u00e9"]',
+    r'{"": 1, " ": 2, "a b": 3, "0": 4, "-1": 5, "\u00e9": 6, "e\u0301": 7, "$": 8, "@": 9, "*": 10}',
+    "[0.1, 0.30000000000000004, -0.0, 1e16, 10000000000000000, 1e22, 1e23, 5e-324, 2.2250738585072014e-308, 1.7976931348623157e308, 123456789012345678]",
+    "[9223372036854775807, 9223372036854775808, 18446744073709551615, 18446744073709551616, -9223372036854775809, 1e400, -1e400]",
+    '"just a string"', "42", "null", "true", "[]", "{}", "[[]]", "[{}]", '{"a": []}',
+    '{"a": {"a": {"a": {"a": "x"}}}, "b": [[], {}, [[]], [{}]]}',
+    '["' + "x" * 70000 + '\u00e9", "' + "\u00e9" * 9000 + '"]',
+]
 
 
 def _structural_pos(rng, b: bytes) -> int:
@@ -267,6 +312,60 @@ def apply_fault(rng, text: str, fault: str) -> bytes:
     raise ValueError(fault)
 
 
+FUZZ_CHARS = ("\r", "\t", "\x00", "\x1b[31m", "\u2028", "\u00a0", "\x0c", "\n", "'", '"', "\\", "[", "]", "(", ")", "?", "@", "$", ".", "..", ",", ":", "*", "!", "&&", "||", "==", "<", "0", "-", "1e", "\\u", "\\ud83d", "\\udc00", "é", "\U0001f600")
+
+
+# every non-ASCII whitespace-like / control / format code point a lexer might special-case
+_ODD_CODEPOINTS = [chr(c) for c in range(0x80, 0x3100) if chr(c).isspace() or 0x80 <= c <= 0x9F or c in (0xAD, 0x200B, 0x200C, 0x200D, 0x200E, 0x2060, 0xFEFF, 0x061C)] + ["\ufeff", "\ufffe", "\uffff", "\U000e0001"]
+
+
+def _fuzz_char(rng) -> str:
+    r = rng.random()
+    if r < 0.6:
+        return rng.choice(FUZZ_CHARS)
+    if r < 0.85:
+        return rng.choice(_ODD_CODEPOINTS)
+    c = rng.randrange(0x20, 0x3000)
+    return chr(c)
+
+
+def fuzz_query(rng) -> str:
+    """A valid generated query corrupted by a few edits, or an exotic construct:
+    what a fixed list of typical invalid queries does not contain."""
+    r = rng.random()
+    if r < 0.25:
+        kind = rng.randrange(8)
+        if kind == 0:
+            return "$[?" + "(" * rng.choice((30, 200, 600)) + "@.a" + ")" * rng.choice((30, 200, 600)) + "]"
+        if kind == 1:
+            return "$[" + ", ".join(str(i) for i in range(rng.choice((100, 150, 400)))) + "]"
+        if kind == 2:
+            return "$[?@.a == " + "9" * rng.choice((17, 400, 5000)) + "]"
+        if kind == 3:
+            return "$[?" + "f" * rng.choice((40, 300)) + "(@.a)]"
+        if kind == 4:
+            return "$['" + rng.choice(("x", "é", "\\ud83d\\ude00", "\\n")) * rng.choice((50, 300, 3000)) + rng.choice(("'", "", "\\")) + "]"
+        if kind == 5:
+            return "$" + "[?@" * rng.choice((10, 60, 300)) + "]" * rng.choice((10, 60, 300))
+        if kind == 6:
+            return "$" + _fuzz_char(rng) + ".a"
+        return "$" + ".a" * rng.choice((200, 2000)) + rng.choice(("", ".", "["))
+    f = Q.Features(max_segs=3, nested=rng.choice((1, 2)))
+    text = Q.render(Q.gen_query(rng, f, 0, 1))
+    for _ in range(rng.choice((1, 1, 2, 3))):
+        if not text:
+            break
+        i = rng.randrange(len(text) + 1)
+        op = rng.random()
+        if op < 0.4:
+            text = text[:i] + _fuzz_char(rng) + text[i:]
+        elif op < 0.7 and i < len(text):
+            text = text[:i] + text[i + 1 :]
+        elif i < len(text):
+            text = text[:i] + _fuzz_char(rng) + text[i + 1 :]
+    return text
+
+
 def gen_scenario(rng) -> Dict[str, Any]:
     worker_init()
     r = rng.random()
@@ -278,16 +377,26 @@ def gen_scenario(rng) -> Dict[str, Any]:
         cls = rng.choice(sorted(_ERR_QUERIES))
         qtext = rng.choice(_ERR_QUERIES[cls])
         qclass = f"compile:{cls}"
-    else:
+    elif r < 0.9:
         qtext = rng.choice(EVAL_ERROR_QUERIES)
         qclass = "eval-error-candidate"
+    else:
+        qtext = fuzz_query(rng)
+        qclass = "fuzzed"
     text, dkind = _doc_text(rng)
     if qclass == "eval-error-candidate" and qtext == "$..*" and rng.random() < 0.7:
         depth = rng.choice((100, 101, 150))
         text, dkind = "[" * depth + "1" + "]" * depth, f"deep-{depth}"
+    if dkind.startswith("large") and qclass == "generated":
+        # a filter with a root or descendant query per node is quadratic in the
+        # document: fine for the library, useless for this check
+        qtext = rng.choice(("$.c", "$.a[0]", "$.a[-1]", "$.b[0]", "$..a", "$.a[1:3]", "$.*", "$.c.a", "$.a", "$.b", "$..c.a", "$.a[?@ == 2]", "$.a[::1000]"))
+        qclass = "generated-cheap"
     fault = rng.choice(FAULTS)
     doc_bytes = apply_fault(rng, text, fault)
     delivery = rng.choice(("-q", "--query=", "-r"))
+    if "\x00" in qtext or qtext.startswith("-"):
+        delivery = "-r"  # no NUL in a real argv; a leading '-' would be taken for an option
     qfile_fault = "none"
     files: Dict[str, bytes] = {}
     argv: List[str] = []
@@ -337,6 +446,8 @@ def gen_scenario(rng) -> Dict[str, Any]:
     out = rng.choice(("stdout", "stdout", "-o"))
     if out == "-o":
         argv += ["-o", "/out.json"]
+        if rng.random() < 0.35:
+            files["/out.json"] = ("[" + "\"stale\", " * rng.choice((3, 400)) + "0]\n").encode()
     nchunk = rng.choice((0, 1, 2, 3))
     chunks = [rng.choice((1, 2, 3, 5, 7, 16, 64)) for _ in range(nchunk)]
     return {
@@ -386,8 +497,10 @@ def judge(sc: Dict[str, Any], obs: Dict[str, Any], ref: Dict[str, Any]) -> List[
             if obs["status"] == 0:
                 out.append((f"exit0-on-error@{phase}", f"exit status 0 although {why}"))
             elif not sc["debug"]:
-                lines = stderr.split("\n")
-                if not (len(lines) == 2 and lines[0].strip() and lines[1] == ""):
+                # "one line": ends with exactly one newline and holds nothing any
+                # line-aware consumer would split (CR, FF, VT, NEL, U+2028/9 included)
+                body = stderr[:-1] if stderr.endswith("\n") else None
+                if body is None or not body.strip() or len(body.splitlines()) != 1:
                     out.append((f"stderr-not-one-line@{phase}", f"stderr is {stderr[:200]!r}; expected exactly one non-empty line for {why}"))
         if primary or other:
             out.append((f"partial-output@{phase}", f"output written although {why}: {(primary or other)[:120]!r}"))
